@@ -23,14 +23,14 @@ RULE = ('all histories to depth 2 (quick) / 3 (thorough) over 9 setters/generate
 ASSUMPTIONS = ['value semantics of the state machine (no aliasing); extraction (py2lean/effects) is trusted and cross-checked by the event-stream correspondence']
 
 VALUES = {
-    'Dp': [0.5, 0.762], 'fluid': ['fresh', 'salt'], 'D50': [0.3e-3, 1.0e-3], 'Cv': [0.1, 0.25], 'rhom': [1.2, 1.35],
+    'Dp': [0.5, 0.762, 0.3], 'fluid': ['fresh', 'salt'], 'D50': [0.3e-3, 1.0e-3, 0.1e-3, 0.12e-3], 'Cv': [0.1, 0.25], 'rhom': [1.2, 1.35],
     'rhos': [2.65, 3.2], 'epsilon': [4.5e-5, 1.0e-4], 'max_index': [4, 7], 'generate_GSD': [(2.0, 2.72), (1.5, 3.5), None],
 }
 SETTERS = ['Dp', 'fluid', 'D50', 'Cv', 'rhom', 'rhos', 'epsilon', 'max_index', 'generate_GSD']
 READS_G = ['GSD', 'get_dx', 'Erhg']
 READS_C = ['vls_list', 'Erhg_curves', 'im_curves', 'LDV_curves', 'LDV85_curves']
 # reads of derived scalars and lookups that touch neither flag (they must not leave a trace either)
-READS_S = ['Rsd', 'rhom_read', 'Cvi', 'Dmean', 'im_point', 'il_point', 'get_dx_25', 'str']
+READS_S = ['Rsd', 'rhom_read', 'Cvi', 'Dmean', 'im_point', 'il_point', 'get_dx_25', 'str', 'other_slurry', 'other_slurry']
 
 
 class Tracker:
@@ -90,6 +90,13 @@ def apply(obj, op, state):
             _ = obj.get_dx(0.25)
         elif name == 'str':
             _ = str(obj)
+        elif name == 'other_slurry':
+            # something else happens in the process: another slurry is built and graded (every Pipeline and Pump builds one of its own).
+            # No state may be shared between slurry objects
+            from DHLLDV.SlurryObj import Slurry
+            o = Slurry(D50=0.5e-3)
+            o.generate_GSD(d15_ratio=3.0, d85_ratio=4.0)
+            _ = o.GSD
         else:
             _ = getattr(obj, name.removesuffix('_read'))
     else:
@@ -246,6 +253,15 @@ def monitor(ctx, extended=False):
     for h in histories(ctx, depth):
         hh = [(ctx.rng.choice(READS_C), None)] + interleave_reads(ctx, h, 0.5)
         run_history(ctx, hh, 'exhaustive')
+        nontrivial += 1
+    # fine sands: histories that pass through a state in which D50 lies below the pseudo-liquid limit (e.g. created with the default pipe diameter,
+    # the actual one set afterwards) - the given D15 must survive it
+    scripted = [[('D50', 0.1e-3), ('generate_GSD', (3.3333, 2.6)), ('Dp', 0.3)],
+                [('D50', 0.1e-3), ('generate_GSD', (2.0, 2.72)), ('fluid', 'fresh'), ('Dp', 0.3), ('Cv', 0.1)],
+                [('D50', 0.12e-3), ('generate_GSD', (1.5, 3.5)), ('Dp', 0.762), ('rhos', 3.2), ('Dp', 0.5)],
+                [('Dp', 0.3), ('D50', 0.1e-3), ('generate_GSD', (3.3333, 2.6)), ('Dp', 0.762), ('GSD', None), ('Dp', 0.3)]]
+    for h in scripted:
+        run_history(ctx, h, 'scripted-fine-sand')
         nontrivial += 1
     for _ in range(ctx.n(60, 3000) * (3 if extended else 1)):
         run_history(ctx, [(ctx.rng.choice(READS_C + READS_G), None)] + random_history(ctx, ctx.rng.randint(3, 12)), 'random')
